@@ -18,14 +18,14 @@ var allDeltas = []time.Duration{1 * time.Second, 59 * time.Second, 61 * time.Sec
 
 // emit kinds. The session under study is S with rooms {S, r1}; the second session is T with rooms {T, r2}.
 const (
-	kAll      = iota // to everyone
-	kR1              // to room r1
-	kR2              // to room r2
-	kR1xR2           // to r1 except r2
-	kAllxS           // to everyone except S (another socket's Broadcast())
-	kS               // direct to S (rooms = {S})
-	kT               // direct to T (rooms = {T})
-	kAck             // direct to S with an ack id in the header (never logged, never replayed)
+	kAll   = iota // to everyone
+	kR1           // to room r1
+	kR2           // to room r2
+	kR1xR2        // to r1 except r2
+	kAllxS        // to everyone except S (another socket's Broadcast())
+	kS            // direct to S (rooms = {S})
+	kT            // direct to T (rooms = {T})
+	kAck          // direct to S with an ack id in the header (never logged, never replayed)
 	nKinds
 )
 
@@ -124,24 +124,27 @@ type mpkt struct {
 	id     string        // offset id, read from the real log when the packet is emitted
 }
 
-func evName(i int) string { return fmt.Sprintf("e%d", i) }
+func evName(i int) string  { return fmt.Sprintf("e%d", i) }
 func textArg(i int) string { return fmt.Sprintf("p%d", i) }
 func binArg(i int) []byte  { return []byte{0xB0 + byte(i), 0x00, 0xFF, '"', byte(i)} }
 
-// timing of one case: packets 1..k are emitted 10 s apart, the sessions disconnect 100 ms after
-// packet k, the other packets follow (10 s apart if they fit before the reconnection, else evenly
-// spread), the sessions reconnect delta after the disconnect.
+// timing of one case: packets 1..k are emitted `spacing` apart (10 s; the slow profile uses 35 s, so
+// that clean-up passes fall inside the live phase and an offset can be much older than the
+// disconnect), the sessions disconnect 100 ms after packet k, the other packets follow (10 s apart if
+// they fit before the reconnection, else evenly spread), the sessions reconnect delta after the disconnect.
 type timing struct {
 	emitAt     []time.Duration
 	tDisc, tRe time.Duration
 }
 
-func schedule(n, k int, delta time.Duration) timing {
+var allSpacings = []time.Duration{10 * time.Second, 35 * time.Second}
+
+func schedule(n, k int, delta, spacing time.Duration) timing {
 	t := timing{emitAt: make([]time.Duration, n)}
 	for i := 0; i < k; i++ {
-		t.emitAt[i] = time.Duration(i+1) * 10 * time.Second
+		t.emitAt[i] = time.Duration(i+1) * spacing
 	}
-	t.tDisc = time.Duration(k)*10*time.Second + 100*time.Millisecond
+	t.tDisc = time.Duration(k)*spacing + 100*time.Millisecond
 	m := n - k
 	sp := 10 * time.Second
 	if time.Duration(m)*sp+time.Second > delta {
@@ -191,6 +194,9 @@ func expect(model []mpkt, offsetIdx int, tm timing) (expectation, string) {
 		return mustNot, "the client has no offset (it never received a logged packet)"
 	}
 	age := tm.tRe - model[offsetIdx].at
+	if age > window+cleanerPeriod {
+		return mustNot, "the offset packet expired more than a full clean-up period ago (a pass after its expiry has certainly run)"
+	}
 	if age > window {
 		return mayEither, "the offset packet is older than the window (still logged or not depending on the clean-up phase)"
 	}
